@@ -275,16 +275,22 @@ impl NormGraph {
         SpecBits::kind(self.directed, self.multi, self.loops)
     }
     pub fn build(&self) -> G {
+        self.build_a().0
+    }
+    /// the graph and, per entry of `edges`, the attributes of the edge object that was added
+    pub fn build_a(&self) -> (G, Vec<Option<i32>>) {
         crate::model::reset_edge_pool();
         let mut g = G::new(self.spec().to_specs());
         for i in &self.order {
             g.add_node(mk_node(&self.names[*i], Some(*i as i32)));
         }
+        let mut attrs = Vec::with_capacity(self.edges.len());
         for (i, j, w) in &self.edges {
-            g.add_edge(mk_edge(&self.names[*i], &self.names[*j], *w))
-                .unwrap_or_else(|e| panic!("harness bug: normalised edge rejected: {:?}", e.kind));
+            let e = mk_edge(&self.names[*i], &self.names[*j], *w);
+            attrs.push(e.attributes);
+            g.add_edge(e).unwrap_or_else(|e| panic!("harness bug: normalised edge rejected: {:?}", e.kind));
         }
-        g
+        (g, attrs)
     }
     pub fn index_of(&self, name: &str) -> Option<usize> {
         self.names.iter().position(|x| x == name)
@@ -368,7 +374,56 @@ pub fn ng_from_graph<A: Clone + Send + Sync>(g: &graphrs::Graph<String, A>) -> N
     let idx = |x: &String| names.iter().position(|y| y == x).expect("edge endpoint is a node");
     let edges: Vec<(usize, usize, f64)> = g.get_all_edges().iter().map(|e| (idx(&e.u), idx(&e.v), e.weight)).collect();
     let weighted = !edges.is_empty() && edges.iter().all(|e| !e.2.is_nan());
-    NormGraph { directed: g.specs.directed, multi: g.specs.multi_edges, loops: g.specs.self_loops, n: names.len(), order: (0..names.len()).collect(), names, edges, weighted }
+    NormGraph { directed: g.specs.directed, multi: g.specs.multi_edges, loops: g.specs.self_loops || edges.iter().any(|e| e.0 == e.1), n: names.len(), order: (0..names.len()).collect(), names, edges, weighted }
+}
+
+/// Counts a human would pick as a threshold, block size or capacity: powers of two and round
+/// decimal numbers (and their multiples), each with its two neighbours.
+pub const ROUND_COUNTS: [u16; 58] = [
+    2, 3, 4, 5, 7, 8, 9, 10, 11, 15, 16, 17, 31, 32, 33, 50, 63, 64, 65, 99, 100, 101, 127, 128, 129, 200, 255, 256, 257, 499, 500, 501, 511, 512, 513, 999, 1000, 1001, 1023, 1024, 1025, 1999, 2000, 2001, 2047, 2048,
+    2049, 2500, 3000, 3001, 4000, 4095, 4096, 4097, 5000, 6000, 8000, 8192,
+];
+
+/// A small multigraph in which a few node pairs (or self-loops) carry a *large* number of
+/// parallel edges (`ROUND_COUNTS`): one edge per event is how interaction / transaction
+/// multigraphs are stored, and code that processes a pair's edge list in blocks or with a
+/// capacity switches behaviour at such counts.
+#[derive(Clone, Debug, PartialEq, Eq, Serialize, Deserialize)]
+pub struct HeavyCase {
+    /// kind bits as in `GraphCase` (bit 0 directed, bit 2 self-loops); always a multi-edge graph
+    pub kind: u8,
+    /// 1..=4 nodes
+    pub n: u8,
+    /// (u, v, index into ROUND_COUNTS, weight byte); weights are constant within a group when the
+    /// byte is even, cycle through dyadic values otherwise
+    pub groups: Vec<(u8, u8, u8, u8)>,
+    /// 0 unweighted, 1 dyadic
+    pub wmode: u8,
+}
+
+impl HeavyCase {
+    pub fn norm(&self) -> NormGraph {
+        let n = (self.n as usize).clamp(1, 4);
+        let directed = self.kind & 1 == 1;
+        let loops = self.kind & 4 == 4;
+        let mut edges = vec![];
+        for (u, v, c, wb) in &self.groups {
+            let (i, j) = (*u as usize % n, *v as usize % n);
+            if i == j && !loops {
+                continue;
+            }
+            let count = ROUND_COUNTS[*c as usize % ROUND_COUNTS.len()] as usize;
+            for k in 0..count {
+                let r = if wb % 2 == 0 { *wb } else { wb.wrapping_add((k % 7) as u8) };
+                edges.push((i, j, decode_weight(if self.wmode == 0 { 0 } else { 1 }, r)));
+            }
+        }
+        NormGraph { directed, multi: true, loops, n, names: (0..n).map(node_name).collect(), order: permutation(self.kind as u32 / 8, n), edges, weighted: self.wmode != 0 }
+    }
+}
+
+pub fn heavy_strategy() -> BoxedStrategy<HeavyCase> {
+    (any::<u8>(), 1u8..=4, proptest::collection::vec((any::<u8>(), any::<u8>(), any::<u8>(), any::<u8>()), 1..=2), 0u8..=1).prop_map(|(kind, n, groups, wmode)| HeavyCase { kind, n, groups, wmode }).boxed()
 }
 
 /// graphs whose node count sits around a power of two (or another plausible internal threshold),
